@@ -29,6 +29,8 @@ THEOREMS = [
     "NfcVerif.C01T34.t4_wf_cc4",
     "NfcVerif.C01T34.t4_wf_cc6",
     "NfcVerif.C01T34.t4_asFound_nlen_counterexample",
+    "NfcVerif.C01T34.t3emu_roundtrip",
+    "NfcVerif.C01T34.t3emu_process_command_total",
 ]
 
 
@@ -103,12 +105,12 @@ def run_part(ck):
     jobs = []
     nl3, nl4 = (150, 220) if ck.thorough else (26, 40)
     lays = T.gen_t3(rng, nl3, ck.thorough) + T.gen_t4(rng, nl4, ck.thorough)
-    if ck.thorough:   # one ENDEF file larger than P1-P2 can address
-        lays.append(T.L4(0x30, 6, 255, 255, 70000, b"", b""))
+    # one ENDEF file larger than a 16 bit offset in P1-P2 can address
+    lays.append(T.L4(0x30, 6, 255, 255, 70000, T.rbytes(rng, 300, 1), b""))
     for lay in lays:
         ls = T.lengths(rng, lay.cap, 4 if ck.thorough else 2)
         if lay.cap > 5000:
-            ls = [0, 5, 66000, lay.cap, lay.cap + 1]
+            ls = [0, 5, 65531, 65532, 65533, 66000] + ([lay.cap, lay.cap + 1] if ck.thorough else [])
         for n in ls:
             data = T.rbytes(rng, n, 1) if rng.random() < 0.9 else bytes(n)
             sim = lay.sim()
@@ -199,6 +201,10 @@ def emu_tie(ck, model):
     from sims.t34_sims import IDM, PMM
     ids = hx(IDM + PMM + b"\x12\xFC")
     n_cases = 3000 if ck.thorough else 400
+    try:   # does the tree ignore truncated commands (repair of F23, property C07)?
+        f23 = "1" if EmuLink(bytes(16)).emu.process_command(bytearray()) is None else "0"
+    except IndexError:
+        f23 = "0"
 
     def raw_job(store, cmd, why):
         link = EmuLink(store)
@@ -207,7 +213,7 @@ def emu_tie(ck, model):
             real = "ok %s store=%s calls=%s" % ("none" if rsp is None else hx(rsp), hx(link.store), ",".join(link.calls) or "-")
         except Exception as e:  # noqa
             real = "exc " + exc_name(e)
-        jobs.append(("t3e.raw %s %s %s" % (ids, hx(store), hx(cmd)), real, {"emu-frame": bytes(cmd).hex()[:400], "kind": why}))
+        jobs.append(("t3e.raw %s %s %s %s" % (f23, ids, hx(store), hx(cmd)), real, {"emu-frame": bytes(cmd).hex()[:400], "kind": why}))
         ck.case(("emuraw", bytes(store), bytes(cmd)), True, "t3emu-frame:" + why)
 
     for k in range(n_cases):
